@@ -6,7 +6,9 @@ import ast
 import itertools
 
 from ..cfg import CFG
-from ..core import AnalysisError, const_value
+from ..astutil import inside
+from ..core import AnalysisError, const_value, walk_own
+from ..tutil import EvUnknown, ev_term, lin, seq_parts, simp
 from ..defuse import DefUse, Terms, show, walk_term
 from ..memo import check_no_cross_call_state
 
@@ -53,31 +55,22 @@ def _sites(ctx, f):
     ctx.require(len(rets) == 1, f"{f.qual}: expected one return")
     rnode, t = rets[0]
     p_seq = f.params[0]
-    parts = []
-
-    def flat(x):
-        if x[0] == "bin" and x[1] == "+":
-            flat(x[2])
-            flat(x[3])
-        else:
-            parts.append(x)
-    flat(t)
-    ok = len(parts) == 3
+    parts = seq_parts(t)
+    ok = parts is not None and len(parts) == 3
     why = show(t, 200)
     if ok:
         first, mid, last = parts
-        ok_first = first == ("list", (("const", 0),))
-        ok_last = last == ("list", (("call", "builtins.len",
-                                     (("param", p_seq),), ()),))
+        ok_first = first == ("item", ("const", 0))
+        ok_last = last == ("item", ("call", "builtins.len",
+                                    (("param", p_seq),), ()))
         ok_mid = False
-        if mid[0] == "comp" and mid[1] == "list" and len(mid[3]) == 1:
-            names, it, conds = mid[3][0]
-            elt = mid[2]
+        if mid[0] == "each":
+            elt, it = mid[1], mid[2]
             whole = (it[0] == "mcall" and it[2] == "finditer"
                      and it[3] == (("param", p_seq),) and not it[4])
             ends = elt[0] == "mcall" and elt[2] == "end" and not elt[3] \
                 and elt[1] == ("elem", it)
-            ok_mid = whole and ends and not conds
+            ok_mid = whole and ends
             if not whole:
                 why = (f"matches are searched with {show(it, 100)}: the "
                        "enzyme pattern must see the whole sequence "
@@ -126,216 +119,297 @@ class _Len:
 
 
 def _cleave(ctx, f):
+    """Sink-driven: every value that is added to the result set, with the
+    conditions (decided in the loops) under which the addition runs."""
     prog = ctx.prog
     du = DefUse(prog, f)
     T = Terms(du, phi_vars=True)
     cfg = CFG(f.node)
     (p_seq, p_sites, p_mc, p_min, p_max, p_semi, p_clip) = f.params
-    outer = [n for n in f.node.body if isinstance(n, ast.For)]
-    ctx.require(len(outer) == 1, f"{f.qual}: start-site loop not found")
-    ol = outer[0]
-    ok = ast.unparse(ol.iter) == f"enumerate({p_sites})" and isinstance(
-        ol.target, ast.Tuple)
-    ctx.check(ok, "C17b-every-start-site", f,
+    P = {n: ("param", n) for n in f.params}
+    SITES = P[p_sites]
+    loops = [n for n in walk_own(f.node) if isinstance(n, ast.For)]
+    outer = [n for n in loops if T.of(n.iter) == (
+        "call", "builtins.enumerate", (SITES,), ())]
+    ctx.check(len(outer) == 1 and cfg.enclosing(outer[0], (ast.For,))
+              is None if outer else False, "C17b-every-start-site", f,
               "every site is tried as a peptide start",
-              f"outer loop iterates {ast.unparse(ol.iter)}", node=ol)
-    s_idx, s_site = (e.id for e in ol.target.elts)
-    inner = [n for n in ol.body if isinstance(n, ast.For)]
-    ctx.require(len(inner) == 1, f"{f.qual}: missed-cleavage loop not found")
-    il = inner[0]
-    gap = il.target.id
-    ok = ast.unparse(il.iter) in (f"range(1, {p_mc} + 2)",
-                                  f"range(1, 2 + {p_mc})")
-    ctx.check(ok, "C17b-gap-range", f,
+              f"loops iterate {[ast.unparse(n.iter) for n in loops]}",
+              node=f.node)
+    if len(outer) != 1:
+        return
+    ol = outer[0]
+    S_IDX, S_SITE = ("idx", SITES), ("elem", SITES)
+
+    def gap_range(t):
+        if t[0] == "call" and t[1] == "builtins.range" and len(t[2]) == 2 \
+                and t[2][0] == ("const", 1):
+            d = lin(t[2][1]) + lin(P[p_mc]).scale(-1)
+            return d.const == 2 and not d.atoms
+        return False
+
+    inner = [n for n in loops if inside(n, ol) and n is not ol
+             and gap_range(T.of(n.iter))]
+    ctx.check(len(inner) == 1, "C17b-gap-range", f,
               "site gaps 1 .. missed_cleavages + 1 are tried",
-              f"gap loop is {ast.unparse(il.iter)} (expected range(1, "
-              f"{p_mc} + 2))", node=il)
-    assigns = {}
-    for s in il.body:
-        if isinstance(s, ast.Assign) and isinstance(s.targets[0], ast.Name):
-            assigns[s.targets[0].id] = s
-    # end index = start index + gap, range-checked, end site = sites[end]
-    e_idx = [k for k, s in assigns.items()
-             if ast.unparse(s.value) in (f"{s_idx} + {gap}",
-                                         f"{gap} + {s_idx}")]
-    ctx.check(len(e_idx) == 1, "C17b-end-index", f,
-              "end index = start index + gap",
-              f"assignments: { {k: ast.unparse(v.value) for k, v in assigns.items()} }",
-              node=il)
-    if len(e_idx) != 1:
+              "gap loops: " + str([ast.unparse(n.iter) for n in loops
+                                   if inside(n, ol) and n is not ol])
+              + f" (expected range(1, {p_mc} + 2))", node=ol)
+    if len(inner) != 1:
         return
-    e_idx = e_idx[0]
-    rc = [s for s in il.body if isinstance(s, ast.If)
-          and ast.unparse(s.test) in (f"{e_idx} >= len({p_sites})",
-                                      f"len({p_sites}) <= {e_idx}")]
-    ok = len(rc) == 1 and len(rc[0].body) == 1 and isinstance(
-        rc[0].body[0], (ast.Continue, ast.Break))
-    ctx.check(ok, "C17b-end-index-range-check", f,
-              "gaps that run past the last site are skipped",
-              "no 'if end_idx >= len(sites): continue'", node=il)
-    e_site = [k for k, s in assigns.items()
-              if ast.unparse(s.value) == f"{p_sites}[{e_idx}]"]
-    pep = [k for k, s in assigns.items() if e_site and ast.unparse(
-        s.value) == f"{p_seq}[{s_site}:{e_site[0]}]"]
-    ctx.check(len(pep) == 1, "C17a-peptide-is-site-to-site-slice", f,
-              "the enzymatic peptide is sequence[start_site:end_site]",
-              f"assignments: { {k: ast.unparse(v.value) for k, v in assigns.items()} }",
-              node=il)
-    if len(pep) != 1:
-        return
-    pep = pep[0]
-    # the peptide variable has a single definition inside the gap loop
-    pep_defs = [n for n in ast.walk(il) if isinstance(n, ast.Name)
-                and n.id == pep and isinstance(n.ctx, ast.Store)]
-    ctx.check(len(pep_defs) == 1, "C17a-peptide-single-definition", f,
-              "the enzymatic peptide is not re-bound before the clipped and "
-              "semi-enzymatic forms are derived from it",
-              f"'{pep}' is assigned {len(pep_defs)} times in the loop: the "
-              "semi-enzymatic fragments / later forms are cut from a "
-              "different string than the enzymatic peptide", node=il)
-    # length filter truth table
-    lf = [s for s in il.body if isinstance(s, ast.If)
-          and f"len({pep})" in ast.unparse(s.test)
-          and len(s.body) == 1 and isinstance(s.body[0], ast.Continue)]
-    ctx.require(len(lf) == 1, f"{f.qual}: length filter not found")
-    bad = []
-    for L in (4, 5, 7, 9, 10):
-        env = {f"len({pep})": L, p_min: 5, p_max: 9}
-        skip = bool(_Len(env).ev(lf[0].test))
-        if skip != (L < 5 or L > 9):
-            bad.append((L, skip))
-    ctx.check(not bad, "C17b-length-filter", f,
-              "a peptide is kept iff min_length <= len <= max_length",
-              f"filter '{ast.unparse(lf[0].test)}' deviates for (len, "
-              f"skipped) = {bad} with min=5, max=9", node=lf[0])
+    il = inner[0]
+    GAP = ("elem", T.of(il.iter))
     # everything added to the result
-    adds = [n for n in ast.walk(il) if isinstance(n, ast.Call)
-            and isinstance(n.func, ast.Attribute) and n.func.attr == "add"]
-    unions = [n for n in ast.walk(il) if isinstance(n, ast.Call)
-              and isinstance(n.func, ast.Attribute)
-              and n.func.attr in ("union", "update")]
+    rets = [t for _r, t in T.returns()]
+    ok = len(rets) == 1 and rets[0][0] == "var"
+    ctx.check(ok, "C17c-returns-result-set", f,
+              "the accumulated set is returned",
+              f"{[show(r, 80) for r in rets]}", node=f.node)
+    if not ok:
+        return
+    RES = rets[0][1]
     removes = [n for n in ast.walk(f.node) if isinstance(n, ast.Call)
                and isinstance(n.func, ast.Attribute)
                and n.func.attr in ("remove", "discard", "difference",
                                    "difference_update", "pop", "clear",
-                                   "intersection")]
+                                   "intersection", "intersection_update",
+                                   "symmetric_difference")]
     ctx.check(not removes, "C17c-only-added", f,
               "peptides are only ever added to the result",
               f"result is reduced by {[ast.unparse(r)[:40] for r in removes]}",
               node=f.node)
-
-    def is_slice_of(e, base_names):
-        if isinstance(e, ast.Name):
-            return e.id in base_names
-        if isinstance(e, ast.Subscript) and isinstance(e.slice, ast.Slice) \
-                and e.slice.step is None:
-            return is_slice_of(e.value, base_names)
-        return False
-
-    added = []
-    for a in adds:
-        added.append((a, a.args[0]))
-    for u in unions:
-        arg = u.args[0]
-        if isinstance(arg, ast.Name):
-            ds = [s for s in ast.walk(il) if isinstance(s, ast.Assign)
-                  and ast.unparse(s.targets[0]) == arg.id]
-            for d in ds:
-                if isinstance(d.value, ast.Set):
-                    for e in d.value.elts:
-                        added.append((u, e))
-                else:
-                    added.append((u, d.value))
-        elif isinstance(arg, ast.Set):
-            for e in arg.elts:
-                added.append((u, e))
-        else:
-            added.append((u, arg))
+    added = []      # (call node, value term)
+    for n in ast.walk(ol):
+        if isinstance(n, ast.Call) and isinstance(n.func, ast.Attribute) \
+                and isinstance(n.func.value, ast.Name) and \
+                n.func.value.id == RES and len(n.args) == 1:
+            if n.func.attr == "add":
+                added.append((n, T.of(n.args[0])))
+            elif n.func.attr in ("union", "update"):
+                at = T.of(n.args[0])
+                ctx.require(at[0] in ("set", "list", "tuple"),
+                            f"{f.qual}: {n.func.attr}() of something that "
+                            f"is not a display: {show(at, 80)}")
+                for e in at[1]:
+                    added.append((n, e))
     ctx.floor("C17a-added-values", len(added), 4)
-    for node, e in added:
-        ctx.check(is_slice_of(e, {pep}), "C17a-substring-provenance", f,
-                  f"added value {ast.unparse(e)} is a contiguous slice of "
+
+    def slice_base(t):
+        """the term a chain of step-less slices is cut from"""
+        while t[0] == "sub" and t[2][0] == "slice" and \
+                t[2][3] == ("const", None):
+            t = t[1]
+        return t
+
+    # the enzymatic peptide: the added value that is a direct slice of the
+    # sequence
+    peps = {slice_base(v) for _n, v in added}
+    direct = [v for _n, v in added if v[0] == "sub" and v[1] == P[p_seq]]
+    PEP = direct[0] if len(set(direct)) == 1 else None
+    ok_pep = False
+    why = f"values added: {[show(v, 80) for _n, v in added]}"
+    if PEP is not None and PEP[2][0] == "slice":
+        lo, hi, st = PEP[2][1:]
+        if hi[0] == "sub" and hi[1] == SITES:
+            d = lin(hi[2]) + lin(S_IDX).scale(-1) + lin(GAP).scale(-1)
+            ok_pep = lo == S_SITE and st == ("const", None) and \
+                d.const == 0 and not d.atoms
+            END_IDX = hi[2]
+        why = f"the enzymatic peptide is {show(PEP, 160)}"
+    ctx.check(ok_pep, "C17a-peptide-is-site-to-site-slice", f,
+              "the enzymatic peptide is sequence[start_site:sites[start "
+              "index + gap]]", why, node=il)
+    if not ok_pep:
+        return
+    ctx.check(True, "C17b-end-index", f, "end index = start index + gap", "")
+    for node, v in added:
+        ok_v = slice_base(v) == P[p_seq] and (
+            v == PEP or (v[0] == "sub" and slice_base(v[1]) == P[p_seq]
+                         and _through(v, PEP)))
+        ctx.check(ok_v, "C17a-substring-provenance", f,
+                  f"added value {show(v, 60)} is a contiguous slice of "
                   "the enzymatic peptide",
-                  f"{ast.unparse(e)} is not a step-less slice of "
-                  f"'{pep}' (= {p_seq}[start:end])", node=node)
-    # main add is unconditional after the filters
-    main = [a for a, e in added if isinstance(e, ast.Name) and e.id == pep]
-    ok_main = len(main) == 1 and not [
-        g for g in cfg.guards(main[0]) if any(
-            g[0] is s.test for s in ast.walk(il) if isinstance(s, ast.If))]
-    ctx.check(ok_main, "C17b-peptide-always-added", f,
-              "a peptide that passes the filters is always added",
-              "the enzymatic peptide is added conditionally", node=il)
-    # clipping
-    clip = [a for a, e in added if ast.unparse(e) == f"{pep}[1:]"]
-    ctx.require(len(clip) == 1, f"{f.qual}: clipped form not found")
-    gs = [g for g in cfg.guards(clip[0])
-          if any(g[0] is s.test for s in ast.walk(il)
-                 if isinstance(s, ast.If))]
-    bad = []
-    for flag, sidx, m, L in itertools.product((True, False), (0, 1),
-                                              (True, False), (5, 6, 7)):
-        env = {p_clip: flag, s_idx: sidx,
-               f"{pep}.startswith('M')": m, f"len({pep}[1:])": L - 1,
-               f"len({pep})": L, p_min: 5, p_max: 9}
-        try:
-            got = all(bool(_Len(env).ev(t)) == pol for t, pol in gs)
-        except AnalysisError as e:
-            raise AnalysisError(f"{f.qual}: clip guard: {e}")
-        want = flag and sidx == 0 and m and (L - 1) >= 5
-        if got != want:
-            bad.append({"clip": flag, "start_idx": sidx, "M": m, "len": L,
-                        "added": got})
-    ctx.check(not bad, "C17b-clip-condition", f,
-              "clipped form added iff clipping is on, the peptide starts "
-              "the protein, begins with M and the clipped length >= "
-              "min_length (24 valuations)",
-              f"deviates for {bad[:3]}", node=clip[0])
-    # semi: loop idx in range(1, len(peptide)); prefix/suffix equal length
-    sl = [n for n in ast.walk(il) if isinstance(n, ast.For)
-          and n is not il]
-    ctx.require(len(sl) == 1, f"{f.qual}: semi loop not found")
-    sl = sl[0]
-    cut = sl.target.id
-    ok = ast.unparse(sl.iter) == f"range(1, len({pep}))"
-    gsl = [g for g in cfg.guards(sl) if any(
-        g[0] is s.test for s in ast.walk(il) if isinstance(s, ast.If))]
-    ok_flag = len(gsl) == 1 and ast.unparse(gsl[0][0]) == p_semi and \
-        gsl[0][1]
-    ctx.check(ok and ok_flag, "C17b-semi-cuts", f,
-              "with semi on, every cut position 1 .. len-1 is considered",
-              f"semi loop {ast.unparse(sl.iter)} under "
-              f"{[ast.unparse(g[0]) for g in gsl]}", node=sl)
-    semi_vals = sorted(ast.unparse(e) for a, e in added
-                       if any(x is a for x in ast.walk(sl)))
-    ctx.check(semi_vals == sorted([f"{pep}[{cut}:]", f"{pep}[:-{cut}]"]),
-              "C17b-semi-prefix-suffix", f,
-              "each cut adds the suffix and the prefix of the same length",
-              f"semi adds {semi_vals}", node=sl)
-    # length guards inside semi loop
-    slen = [s for s in sl.body if isinstance(s, ast.Assign)]
-    ln = slen[0].targets[0].id if slen and ast.unparse(
-        slen[0].value) == f"len({pep}) - {cut}" else None
-    ctx.check(ln is not None, "C17b-semi-length", f,
-              "fragment length = len(peptide) - cut",
-              f"{[ast.unparse(s) for s in slen]}", node=sl)
-    if ln:
-        gi = [s for s in sl.body if isinstance(s, ast.If)]
-        table = {}
-        for s in gi:
-            act = type(s.body[0]).__name__ if s.body else "?"
-            table[ast.unparse(s.test)] = act
-        ok = table.get(f"{ln} < {p_min}") in ("Break", "Continue") and \
-            table.get(f"{ln} > {p_max}") == "Continue"
-        ctx.check(ok, "C17b-semi-length-bounds", f,
-                  "fragments shorter than min end the scan (lengths only "
-                  "shrink), longer than max are skipped",
-                  f"guards: {table}", node=sl)
-    rets = [n for n in ast.walk(f.node) if isinstance(n, ast.Return)]
-    ok = len(rets) == 1 and isinstance(rets[0].value, ast.Name)
-    ctx.check(ok, "C17c-returns-result-set", f,
-              "the accumulated set is returned",
-              f"{[ast.unparse(r) for r in rets]}", node=f.node)
+                  f"{show(v, 120)} is not a step-less slice of the "
+                  f"enzymatic peptide {show(PEP, 80)}", node=node)
+    ctx.check(all(_through(v, PEP) for _n, v in added),
+              "C17a-peptide-single-definition", f,
+              "the clipped and semi-enzymatic forms are cut from the same "
+              "string as the enzymatic peptide",
+              "a later form is cut from a different string than the "
+              "enzymatic peptide", node=il)
+    # ---- conditions, evaluated over representative valuations
+    LEN_PEP = ("call", "builtins.len", (PEP,), ())
+    CLIPPED = ("sub", PEP, ("slice", ("const", 1), ("const", None),
+                            ("const", None)))
+    semi_loops = [n for n in loops if inside(n, il) and n is not il]
+    CUT = None
+    if len(semi_loops) == 1:
+        CUT = ("elem", T.of(semi_loops[0].iter))
+
+    def conds(node):
+        return [(simp(T.of(t)), o) for t, o in cfg.necessary_conditions(node)
+                if inside(t, il)]
+
+    def atoms_for(v):
+        def atoms(t):
+            if t == LEN_PEP:
+                return v["L"]
+            if t == ("call", "builtins.len", (CLIPPED,), ()):
+                return v["L"] - 1
+            if t[0] == "param":
+                return {p_min: 5, p_max: 9, p_clip: v.get("clip"),
+                        p_semi: v.get("semi")}[t[1]]
+            if t == S_IDX:
+                return v["sidx"]
+            if t == ("call", "builtins.len", (SITES,), ()):
+                return 10
+            if t == END_IDX:
+                return v["end"]
+            if t == ("mcall", PEP, "startswith", (("const", "M"),), ()):
+                return v["M"]
+            if CUT is not None and t == CUT:
+                return v["cut"]
+            raise KeyError(t)
+        return atoms
+
+    def reached(cs, v):
+        at = atoms_for(v)
+        return all(bool(ev_term(t, at)) == o for t, o in cs)
+
+    main = [(n, conds(n)) for n, v in added if v == PEP]
+    clip = [(n, conds(n)) for n, v in added if v == CLIPPED]
+    bad_rc, bad_len = [], []
+    try:
+        ok_main = len(main) == 1
+        if ok_main:
+            for end, L in itertools.product((9, 10, 11), (4, 5, 7, 9, 10)):
+                v = {"L": L, "end": end, "sidx": 1, "clip": False,
+                     "semi": False, "M": False, "cut": 1}
+                got = reached(main[0][1], v)
+                if got and end >= 10:
+                    bad_rc.append((end, L))
+                if end < 10 and got != (5 <= L <= 9):
+                    bad_len.append((L, got))
+        ctx.check(ok_main and not bad_rc, "C17b-end-index-range-check", f,
+                  "gaps that run past the last site are skipped",
+                  "a peptide is added although its end index is past the "
+                  f"last site: (end index, len) = {bad_rc[:3]} with 10 "
+                  "sites", node=il)
+        ctx.check(ok_main and not bad_len, "C17b-length-filter", f,
+                  "a peptide is kept iff min_length <= len <= max_length",
+                  f"deviates for (len, added) = {bad_len} with min=5, "
+                  "max=9", node=il)
+        ctx.check(ok_main and not bad_len, "C17b-peptide-always-added", f,
+                  "a peptide that passes the filters is always added",
+                  "the enzymatic peptide is added conditionally", node=il)
+        # early exits of the gap loop must be justified by the range check
+        bad_brk = []
+        for n in ast.walk(il):
+            if isinstance(n, (ast.Break, ast.Return)) and not any(
+                    inside(n, s_) for s_ in semi_loops):
+                cs = conds(n)
+                for end in (8, 9):
+                    for L in (4, 7, 10):
+                        v = {"L": L, "end": end, "sidx": 1, "clip": True,
+                             "semi": True, "M": True, "cut": 1}
+                        if reached(cs, v):
+                            bad_brk.append((end, L))
+        ctx.check(not bad_brk, "C17b-gap-range", f,
+                  "the gap loop only stops early when the end index is "
+                  "past the last site",
+                  "the gap loop is left although larger gaps still fit: "
+                  f"(end index, len) = {bad_brk[:3]} with 10 sites",
+                  node=il)
+        # clipping
+        ctx.require(len(clip) == 1, f"{f.qual}: clipped form not found")
+        bad = []
+        for flag, sidx, m, L in itertools.product(
+                (True, False), (0, 1), (True, False), (5, 6, 7)):
+            v = {"L": L, "end": 5, "sidx": sidx, "clip": flag,
+                 "semi": False, "M": m, "cut": 1}
+            got = reached(clip[0][1], v)
+            want = flag and sidx == 0 and m and (L - 1) >= 5
+            if got != want:
+                bad.append({"clip": flag, "start_idx": sidx, "M": m,
+                            "len": L, "added": got})
+        ctx.check(not bad, "C17b-clip-condition", f,
+                  "clipped form added iff clipping is on, the peptide "
+                  "starts the protein, begins with M and the clipped "
+                  "length >= min_length (24 valuations)",
+                  f"deviates for {bad[:3]}", node=clip[0][0])
+        # semi
+        ctx.require(len(semi_loops) == 1, f"{f.qual}: semi loop not found")
+        sl = semi_loops[0]
+        want_it = ("call", "builtins.range", (("const", 1), LEN_PEP), ())
+        semi_adds = [(n, v) for n, v in added if inside(n, sl)]
+        loop_conds = conds(sl)
+        bad = []
+        for flag in (True, False):
+            v = {"L": 7, "end": 5, "sidx": 1, "clip": False, "semi": flag,
+                 "M": False, "cut": 1}
+            if reached(loop_conds, v) != flag:
+                bad.append(flag)
+        ctx.check(T.of(sl.iter) == want_it and not bad, "C17b-semi-cuts", f,
+                  "with semi on, every cut position 1 .. len-1 is "
+                  "considered",
+                  f"semi loop {ast.unparse(sl.iter)} under "
+                  f"{cfg.conditions(sl)}", node=sl)
+
+        def cut_slice(lo, hi):
+            return ("sub", PEP, ("slice", lo, hi, ("const", None)))
+
+        want_vals = {cut_slice(CUT, ("const", None)),
+                     cut_slice(("const", None), ("un", "-", CUT))}
+        ctx.check({v for _n, v in semi_adds} == want_vals and len(
+            semi_adds) == 2, "C17b-semi-prefix-suffix", f,
+            "each cut adds the suffix and the prefix of the same length",
+            f"semi adds {[show(v, 80) for _n, v in semi_adds]}", node=sl)
+        bad = []
+        for n, _v in semi_adds:
+            cs = conds(n)
+            for L, c in itertools.product((7, 9), range(1, 9)):
+                if c >= L:
+                    continue
+                v = {"L": L, "end": 5, "sidx": 1, "clip": False,
+                     "semi": True, "M": False, "cut": c}
+                got = reached(cs, v)
+                if got != (5 <= L - c <= 9):
+                    bad.append((L, c, got))
+        ctx.check(not bad, "C17b-semi-length", f,
+                  "a fragment of an admissible peptide is added iff min <= "
+                  "len(peptide) - cut <= max",
+                  f"deviates for (len, cut, added) = {bad[:4]} with min=5, "
+                  "max=9", node=sl)
+        bad = []
+        for n in ast.walk(sl):
+            if isinstance(n, (ast.Break, ast.Return)):
+                cs = conds(n)
+                for L, c in itertools.product((7, 9), range(1, 9)):
+                    if c >= L:
+                        continue
+                    v = {"L": L, "end": 5, "sidx": 1, "clip": False,
+                         "semi": True, "M": False, "cut": c}
+                    if reached(cs, v) and not (L - c < 5):
+                        bad.append((L, c))
+        ctx.check(not bad, "C17b-semi-length-bounds", f,
+                  "the scan over the cuts only stops when the fragments "
+                  "have become shorter than min (lengths only shrink)",
+                  "the scan stops although shorter, still admissible "
+                  f"fragments follow: (len, cut) = {bad[:4]}", node=sl)
+    except (EvUnknown, KeyError) as e:
+        raise AnalysisError(f"{f.qual}: a guard uses a quantity outside "
+                            f"the evaluated fragment: {e}")
+
+
+def _through(v, pep):
+    """is v the term pep or a chain of slices on top of it?"""
+    while True:
+        if v == pep:
+            return True
+        if v[0] == "sub" and v[2][0] == "slice":
+            v = v[1]
+            continue
+        return False
 
 
 def _digest(ctx, f):
